@@ -276,6 +276,12 @@ func checkC06(c *Ctx) {
 	c.check("conditions.literal-integral-test", lf.Name, lf.Decl.Pos(), mulNode >= 0 && rl.found && !rl.leak && !rl.bypass,
 		"after applying a multiplier the literal must be rejected if the result is not integral (Inexact condition consulted)")
 
+	// (b2) arithmetic helpers never mutate their operands: a Num is shared by
+	// every expression that refers to it. apd.Decimal holds its coefficient in
+	// a big.Int whose backing store is shared by a plain struct copy, so an
+	// in-place operation on a shallow copy of an operand changes the operand.
+	c06OperandsImmutable(c)
+
 	// (c) Quo yields a float
 	q := c.fn(adtP, "(*OpContext).Quo")
 	setsFloat := false
@@ -347,4 +353,100 @@ func (c *Ctx) c06SelectsExactForInts(d *Fn) (bool, string) {
 		det = d.Name + " has no branch on both operands being IntKind"
 	}
 	return okAll, det
+}
+
+var bigIntReadOnly = map[string]bool{"Sign": true, "Cmp": true, "CmpAbs": true, "IsInt64": true, "Int64": true, "IsUint64": true, "Uint64": true,
+	"String": true, "Text": true, "Append": true, "BitLen": true, "Bit": true, "Bits": true, "Bytes": true, "TrailingZeroBits": true, "ProbablyPrime": true,
+	"MathBigInt": true, "FillBytes": true, "Format": true, "MarshalText": true, "MarshalJSON": true, "GobEncode": true, "Size": true, "IsZero": true}
+
+func c06OperandsImmutable(c *Ctx) {
+	n := 0
+	for _, f := range c.pkgBodies(adtP, "decimal.go", "binop.go") {
+		info := f.Info()
+		// parameters of type *Num
+		params := map[types.Object]bool{}
+		if f.Type.Params != nil {
+			for _, fl := range f.Type.Params.List {
+				for _, id := range fl.Names {
+					if o := info.Defs[id]; o != nil && strings.HasSuffix(typeKey(o.Type()), "adt.Num") {
+						params[o] = true
+					}
+				}
+			}
+		}
+		if len(params) == 0 {
+			continue
+		}
+		rootedAtParam := func(e ast.Expr) bool {
+			id := rootIdent(e)
+			return id != nil && params[info.Uses[id]]
+		}
+		// shallow copies: x := a.X  /  x = a.X  / x, y := a.X, b.X  (value of type apd.Decimal)
+		tainted := map[types.Object]string{}
+		ast.Inspect(f.Body, func(x ast.Node) bool {
+			as, ok := x.(*ast.AssignStmt)
+			if !ok || len(as.Lhs) != len(as.Rhs) {
+				return true
+			}
+			for i, r := range as.Rhs {
+				t := info.TypeOf(r)
+				if t == nil || !strings.HasSuffix(typeKey(t), "apd/v3.Decimal") {
+					continue
+				}
+				if _, isPtr := t.(*types.Pointer); isPtr {
+					continue
+				}
+				r0 := ast.Unparen(r)
+				if st, ok := r0.(*ast.StarExpr); ok {
+					r0 = st.X
+				}
+				if rootedAtParam(r0) {
+					if o := identObj(info, as.Lhs[i]); o != nil {
+						tainted[o] = exprString(r)
+					}
+				}
+			}
+			return true
+		})
+		var bad []string
+		ast.Inspect(f.Body, func(x ast.Node) bool {
+			call, ok := x.(*ast.CallExpr)
+			if !ok {
+				return true
+			}
+			sel, ok := ast.Unparen(call.Fun).(*ast.SelectorExpr)
+			if !ok {
+				return true
+			}
+			s := info.Selections[sel]
+			if s == nil || s.Kind() != types.MethodVal {
+				return true
+			}
+			rk := typeKey(s.Recv())
+			if !strings.HasSuffix(rk, "apd/v3.BigInt") && !strings.HasSuffix(rk, "apd/v3.Decimal") && rk != "math/big.Int" {
+				return true
+			}
+			if bigIntReadOnly[sel.Sel.Name] {
+				return true
+			}
+			// destination = receiver
+			id := rootIdent(sel.X)
+			if id == nil {
+				return true
+			}
+			o := info.Uses[id]
+			if params[o] {
+				bad = append(bad, fmt.Sprintf("%s.%s mutates the operand itself at %s", exprString(sel.X), sel.Sel.Name, c.pos(call.Pos())))
+			} else if src, ok := tainted[o]; ok {
+				bad = append(bad, fmt.Sprintf("%s.%s mutates a shallow copy of %s (shared coefficient) at %s", exprString(sel.X), sel.Sel.Name, src, c.pos(call.Pos())))
+			}
+			return true
+		})
+		n++
+		c.check("operands.not-mutated", f.Name, f.Decl.Pos(), len(bad) == 0,
+			"an arithmetic helper must not change its *Num operands, directly or through a shallow copy of their apd.Decimal: "+strings.Join(bad, "; "))
+	}
+	if n < 5 {
+		c.broken("anchor: fewer than 5 arithmetic helpers with *Num parameters found (%d)", n)
+	}
 }
